@@ -1,6 +1,6 @@
 (* C10 — transposition swaps outer and inner structure without losing or moving values. *)
 From OptreeModel Require Import Base Tree Flatten Unflatten Spec Construct Ops.
-From OptreeProofs Require Import OpsProofs Subst TransposeProofs.
+From OptreeProofs Require Import OpsProofs Subst TransposeProofs TransposeInvol.
 
 (* tree_transpose groups the m*n leaves into m chunks of n and zips them: for ALL m, n > 0 the
    value at (inner j, outer i) of the result is the input value at (outer i, inner j) *)
@@ -75,6 +75,38 @@ Theorem C10_transpose_is_inner_of_outer :
         Ok (concat (zip_cols n (chunks n m ls)), st_compose (stree_of inner) (stree_of outer), b).
 Proof. exact transpose_tree. Qed.
 Print Assumptions C10_transpose_is_inner_of_outer.
+
+(* TRANSPOSING BACK RETURNS THE ORIGINAL TREE. For outer / inner treespecs of trees and a tree t shaped
+   outer-of-inner: if tree_transpose(outer, inner, t) = r and r flattens at all under the transposition's
+   configuration (i.e. the way back does not hit the recursion limit — r is as deep as t, but nests the
+   other way round), then tree_transpose(inner, outer, r) = t, the identical tree. At the level of the
+   leaves: transposing the transposed grouping of any m * n values gives the values back. *)
+Theorem C10_transpose_back :
+  forall c outer inner o_out o_in lo spo li spi t ls sp r ls' sp',
+    let m := st_leaves (stree_of outer) in
+    let n := st_leaves (stree_of inner) in
+    let ct := {| c_nil := ss_nil outer;
+                 c_ns := if Z.eqb (ss_ns outer) 0 then ss_ns inner else ss_ns outer;
+                 c_pred := c_pred c; c_reg := c_reg c; c_ins := c_ins c; c_limit := c_limit c |} in
+    Bool.eqb (ss_nil outer) (ss_nil inner) = true -> m <> O -> n <> O ->
+    ns_compatible (ss_ns outer) (ss_ns inner) = true -> c_pred c = None ->
+    wf_stree (stree_of outer) = true -> wf_stree (stree_of inner) = true ->
+    wf_obj o_out = true -> wf_obj o_in = true -> wf_obj t = true ->
+    flatten ct o_out = Ok (lo, spo) -> trav spo = encode (stree_of outer) ->
+    flatten ct o_in = Ok (li, spi) -> trav spi = encode (stree_of inner) ->
+    flatten ct t = Ok (ls, sp) -> trav sp = encode (st_compose (stree_of outer) (stree_of inner)) ->
+    tree_transpose c outer inner t = Ok r ->
+    flatten ct r = Ok (ls', sp') ->
+    tree_transpose c inner outer r = Ok t.
+Proof. exact transpose_back. Qed.
+Print Assumptions C10_transpose_back.
+
+Theorem C10_transpose_involutive_on_leaves :
+  forall (A : Type) (d : A) n m (ls : list A),
+    length ls = (m * n)%nat -> (0 < m)%nat -> (0 < n)%nat ->
+    concat (zip_cols m (chunks m n (concat (zip_cols n (chunks n m ls))))) = ls.
+Proof. exact @transpose_involutive. Qed.
+Print Assumptions C10_transpose_involutive_on_leaves.
 
 Example C10_example :
   zip_cols 2 (chunks 2 3 [1; 2; 3; 4; 5; 6]) = [[1; 3; 5]; [2; 4; 6]].
